@@ -327,7 +327,9 @@ twin, _replay_twin = adopt_twin('twin.tC20', FINDING_PATTERNS)
 
 
 def replay(unit, name, model):
-    return {'reproduced': False, 'what': 'no native replay for proof counterexamples of this unit'}
+    """native replay of a solver model on the real classes (props/replay_addr.py)"""
+    from props import replay_addr
+    return replay_addr.replay(unit, name, model)
 
 
 def replay_file(doc):
